@@ -7,6 +7,8 @@ import (
 	"fmt"
 	"math"
 	"math/big"
+	"os"
+	"path/filepath"
 	"sync"
 	"testing"
 	"time"
@@ -28,6 +30,9 @@ type Case struct {
 	BPM    float64
 	Res    uint16
 	Port   string // "fake" (exact clock), "testdrv" (Driver.Sleep), "smf-fake" (SMF.RecordFrom, sleeps 1 s)
+	// ToFile (smf-fake only): the package-level smf.RecordTo(port, bpm, filename) is used; it
+	// records at the default resolution of smf.New (960) and writes the file in its stop function
+	ToFile bool `json:",omitempty"`
 }
 
 // exactTicks: deltaMs * res * bpm / 60000 as a rational.
@@ -38,6 +43,9 @@ func exactTicks(deltaMs int64, res uint16, bpm float64) *big.Rat {
 }
 
 func run(c Case) (res ev.Result) {
+	if c.ToFile {
+		c.Res = 960
+	}
 	if c.Res == 0 || c.BPM <= 0 {
 		res.Skip = true
 		return
@@ -70,6 +78,9 @@ func run(c Case) (res ev.Result) {
 	}
 	res.Nontrivial = len(want) >= 3 && between
 	res.Classes = []string{"port=" + c.Port}
+	if c.ToFile {
+		res.Classes = append(res.Classes, "smf.RecordTo")
+	}
 	if other > 0 {
 		res.Classes = append(res.Classes, "non-channel-messages-arrive")
 	}
@@ -103,6 +114,42 @@ func run(c Case) (res ev.Result) {
 			stop()
 		case "smf-fake":
 			in := &live.FakeIn{}
+			if c.ToFile {
+				dir, err := os.MkdirTemp("", "verif-c13-")
+				if err != nil {
+					panic(err)
+				}
+				defer os.RemoveAll(dir)
+				path := filepath.Join(dir, "take.mid")
+				stop, err := smf.RecordTo(in, c.BPM, path)
+				if err != nil {
+					panic(err)
+				}
+				for _, ch := range c.Chunks {
+					in.Feed(ch.Data, ch.Delta)
+				}
+				if err := stop(); err != nil {
+					panic(fmt.Sprintf("the stop function of RecordTo: %v", err))
+				}
+				raw, err := os.ReadFile(path)
+				if err != nil {
+					panic(fmt.Sprintf("RecordTo left no readable file: %v", err))
+				}
+				if _, err := smfref.Strict(raw); err != nil {
+					panic(fmt.Sprintf("the file written by RecordTo is not a valid SMF: %v", err))
+				}
+				if file, err = smf.ReadFrom(bytes.NewReader(raw)); err != nil {
+					panic(fmt.Sprintf("the file written by RecordTo cannot be read: %v", err))
+				}
+				if mtf, ok := file.TimeFormat.(smf.MetricTicks); !ok || mtf.Resolution() != 960 {
+					panic(fmt.Sprintf("RecordTo wrote time format %v, smf.New has 960 ticks", file.TimeFormat))
+				}
+				if len(file.Tracks) != 1 {
+					panic(fmt.Sprintf("RecordTo: file has %d tracks", len(file.Tracks)))
+				}
+				tr = file.Tracks[0]
+				return
+			}
 			file = smf.New()
 			file.TimeFormat = mt
 			stop, err := file.RecordFrom(in, c.BPM)
@@ -239,6 +286,9 @@ func head(tr smf.Track) string {
 func genCase(port string) func(t *rapid.T) Case {
 	return func(t *rapid.T) Case {
 		c := Case{Port: port}
+		if port == "smf-fake" {
+			c.ToFile = rapid.IntRange(0, 2).Draw(t, "recordTo?") == 0
+		}
 		c.BPM = rapid.OneOf(rapid.Float64Range(20, 400), rapid.SampledFrom([]float64{20, 60, 119.99, 120, 123.456, 400})).Draw(t, "bpm")
 		c.Res = rapid.OneOf(rapid.SampledFrom([]uint16{24, 96, 480, 960, 15360}), rapid.Uint16Range(24, 15360)).Draw(t, "res")
 		items := live.Items(t, 1024, 30)
@@ -292,7 +342,7 @@ const rule = "rapid: live streams of the C04 domain (channel, system common, sys
 
 var fake = ev.NewCheck("C13", "track-record-fake-port", rule+"; port = deterministic drivers.In of the harness (exact clock)", genCase("fake"), run)
 var tdrv = ev.NewCheck("C13", "track-record-testdrv", rule+"; port = testdrv with Driver.Sleep as clock (first recorded delta exempt: that driver's first time stamp contains the wall clock)", genCase("testdrv"), run)
-var smfrec = ev.NewCheck("C13", "smf-record", rule+"; SMF.RecordFrom on the fake port (its stop function sleeps one second; cases run in parallel)", genCase("smf-fake"), run)
+var smfrec = ev.NewCheck("C13", "smf-record", rule+"; SMF.RecordFrom on the fake port, in one case of three the package-level smf.RecordTo into a temporary file (default resolution 960; the file it writes is read back and judged) (the stop functions sleep one second; cases run in parallel)", genCase("smf-fake"), run)
 
 func TestPropTrackRecordFake(t *testing.T)    { fake.Rapid(t, 1500, 40000) }
 func TestPropTrackRecordTestdrv(t *testing.T) { tdrv.Rapid(t, 800, 20000) }
